@@ -253,9 +253,9 @@ Print Assumptions C19_aeif_value.
 (* the hypotheses are satisfiable and the models compute: box [-1,1]x[0,1]x[0,0], padding 1/4, spacing 1/2 *)
 Example C19_grid_example :
   box_ok (-1, 0, 0) (1, 1, 0) (1#4) /\
-  option_map (@length qv) (rectangular_grid (-1, 0, 0) (1, 1, 0) (1#4) (1#2)) = Some 24%nat /\
-  axis_pts (-(5#4)) (5#4) (1#2) = [-(5#4) + 0 * _; _; _; _; _; _] /\
+  option_map (@length qv) (rectangular_grid (-1, 0, 0) (1, 1, 0) (1#4) (1#2)) = Some 48%nat /\
+  map Qred (axis_pts (-(5#4)) (5#4) (1#2)) = [-(5#4); -(3#4); -(1#4); 1#4; 3#4; 5#4] /\
   nearest [(0, 0, 0); (4, 0, 0)] 2 (3, 0, 0) = 1%Z /\ nearest [(0, 0, 0); (4, 0, 0)] (1#2) (2, 0, 0) = (-1)%Z /\
   prune_exact [(0, 0, 0)] 1 [(2, 0, 0); (1, 0, 0); (0, 3, 0); (0, 0, 1#2)] = [1; 3]%Z /\
-  aso [[(0, 0, 0)]; [(3, 0, 0)]] [1] None [(0, 0, 1#2); (5, 5, 5)] = [1#2; 0].
-Proof. vm_compute. repeat split; try reflexivity; discriminate. Qed.
+  map Qred (aso [[(0, 0, 0)]; [(3, 0, 0)]] [1] None [(0, 0, 1#2); (5, 5, 5)]) = [1#2; 0].
+Proof. split; [cbv [box_ok]; repeat split; unfold Qle; simpl; lia | vm_compute; repeat split; reflexivity]. Qed.
